@@ -38,6 +38,13 @@ def plan(tier, seed):
             kindvecs = [''.join(v) for v in itertools.product('if', repeat=k)]
             if k >= 4:
                 kindvecs = ['i' * k, 'f' * k, 'i' + 'f' * (k - 1), 'f' + 'i' * (k - 1), 'i' * (k - 1) + 'f']
+            # unsigned integers (the NetCDF reader's "Positive Integer"): alone and with every other type, 1-2 inputs
+            if k == 1:
+                kindvecs = kindvecs + ['u']
+            elif k == 2:
+                kindvecs = kindvecs + ['uu', 'ui', 'iu', 'uf', 'fu']
+            elif k == 3 and tier != 'quick':
+                kindvecs = kindvecs + ['uuu', 'uiu', 'fuu']
             for kv in kindvecs:
                 wkinds = ['f']
                 if weighted:
